@@ -140,6 +140,10 @@ LabelSeqs(n) == UNION {[1..k -> Labels] : k \in 0..n}
 Pats == UNION {[1..k -> {<<l, g>> : l \in Labels, g \in BOOLEAN}] : k \in 0..2}
 RemKs    == {<<0>>, <<0, 0>>, <<1, 0>>, <<0, 1>>, <<2, 0>>, <<0, 3>>}      \* index lists for bulk removal
 CtorTakesItems == Kind \in {"FPCal", "Optical"}
+\* "Unused": the placeholder block of an unused table slot - no items at all; its only state are the
+\* block-level dates (modelled as the auxiliary counter, like the marker links of a 3D block)
+HasItems       == Kind # "Unused"
+HasAux         == Kind \in {"Data3D", "Unused"}
 HasRemoveLabel == Kind = "EMG"
 HasRemoveIdx   == Kind = "FPCal"
 HasRemoveItem  == Kind \in {"FPCal", "Optical", "Events"}      \* by item object (remove_platform / list.remove)
@@ -157,7 +161,7 @@ BulkCs   == {<<>>, <<0, 2>>, <<2, 2>>, <<1, 0>>}
 Calls ==
   {CallConstruct(i, ls) : i \in 1..NI, ls \in (IF CtorTakesItems THEN LabelSeqs(2) ELSE {<<>>})}
   \cup UNION {{CallDecode(i, j) : j \in 1..NI \ {i}} : i \in {k \in 1..NI : w[k].ex}}
-  \cup {CallAdd(i, l, g, c) : i \in {k \in 1..NI : w[k].ex}, l \in Labels,
+  \cup {CallAdd(i, l, g, c) : i \in {k \in 1..NI : w[k].ex /\ HasItems}, l \in Labels,
                               g \in (IF BadItems THEN BOOLEAN ELSE {TRUE}),
                               c \in (IF HasChans THEN Chans \cup {Auto} ELSE {Auto})}
   \cup (IF HasRemoveLabel THEN {CallRemove(i, "label", l) : i \in {k \in 1..NI : w[k].ex}, l \in Labels} ELSE {})
@@ -172,7 +176,7 @@ Calls ==
                           \cup {CallLookup(i, "index", k) : i \in {k \in 1..NI : w[k].ex}, k \in 0..(MaxItems + 1)}
                           \cup {CallLookup(i, wh, l) : i \in {k \in 1..NI : w[k].ex}, wh \in {"label", "contains"}, l \in Labels \cup {9}} ELSE {})
   \cup {CallEncode(i) : i \in {k \in 1..NI : w[k].ex}}
-  \cup (IF Kind = "Data3D" THEN {CallAux(i) : i \in {k \in 1..NI : w[k].ex}} ELSE {})
+  \cup (IF HasAux THEN {CallAux(i) : i \in {k \in 1..NI : w[k].ex}} ELSE {})
   \cup UNION {{CallEdit(i, pos) : pos \in 1..Len(w[i].items)} : i \in {k \in 1..NI : w[k].ex /\ HasContent}}
   \cup {CallPoke(i) : i \in {k \in 1..NI : w[k].ex}}
   \cup (IF Kind \in {"Data3D", "Force"} THEN {c \in {CallAssignFrom(i, j) : i \in 1..NI, j \in 1..NI} : c.o.i # c.o.j /\ w[c.o.i].ex /\ w[c.o.j].ex} ELSE {})
@@ -194,7 +198,7 @@ Ex(i)  == w[i].ex
 \* every edge of the state graph with the instantiated call
 Construct(i, ls)      == (ls = <<>> \/ CtorTakesItems) /\ Act(CallConstruct(i, ls))
 Decode(i, j)          == Ex(i) /\ i # j /\ Act(CallDecode(i, j))
-Add(i, l, g, c)       == Ex(i) /\ (g \/ BadItems) /\ (c = Auto \/ HasChans) /\ Act(CallAdd(i, l, g, c))
+Add(i, l, g, c)       == Ex(i) /\ HasItems /\ (g \/ BadItems) /\ (c = Auto \/ HasChans) /\ Act(CallAdd(i, l, g, c))
 RemoveLabel(i, l)     == Ex(i) /\ HasRemoveLabel /\ Act(CallRemove(i, "label", l))
 RemoveIndex(i, k)     == Ex(i) /\ HasRemoveIdx /\ Act(CallRemove(i, "index", k))
 RemoveItem(i, pos)    == Ex(i) /\ HasRemoveItem /\ pos <= Len(w[i].items) /\ Act(CallRemove(i, "item", w[i].items[pos].id))
@@ -202,7 +206,7 @@ Assign(i, p, cs)      == Ex(i) /\ HasAssign /\ ((Kind = "FPCal") <=> (cs # <<>>)
 BulkAdd(i, ls, cs)    == Ex(i) /\ HasBulk /\ Act(CallBulkAdd(i, ls, cs))
 Lookup(i, what, key)  == Ex(i) /\ HasLookup /\ Act(CallLookup(i, what, key))
 Encode(i)             == Ex(i) /\ Act(CallEncode(i))
-AuxEdit(i)            == Ex(i) /\ Kind = "Data3D" /\ Act(CallAux(i))
+AuxEdit(i)            == Ex(i) /\ HasAux /\ Act(CallAux(i))
 EditItem(i, pos)      == Ex(i) /\ HasContent /\ pos <= Len(w[i].items) /\ Act(CallEdit(i, pos))
 Poke(i)               == Ex(i) /\ Act(CallPoke(i))
 AssignSelf(i)         == Ex(i) /\ Kind \in {"Data3D", "Force"} /\ Act(CallAssignSelf(i))
